@@ -5,6 +5,15 @@ Case (kind "cast"):
    "col": bool (True: FlatColumn(type=t, ..., default=x).default instead of OrsoTypes.<t>.parse(x, **kw)),
    "x": encoded input, "v": encoded typed value the input renders (optional), "r": rendering name (optional)}
 Case (kind "str"): {"kind": "str", "v": encoded value}   - str(v) as CPython prints it, for the model's renderers.
+Case (kind "session"): {"kind": "session", "ops": [op, ...], "n_pre": k} - a sequence of calls made in ONE fresh process; the first k
+  operations are the prefix, the others are also run each alone in a fresh process and must give the same outcome. An op is
+  {"op": "name", "tn": name, "lower": bool}              OrsoTypes.from_name(text of the name)
+  {"op": "decl", "tn": name, "kw": {...}, "x": input, ["v", "r"]}   FlatColumn(name='c', type=<text of the name>, **kw, default=x).default
+  {"op": "cast", + the fields of a cast case}
+  with name = ["plain", member] | ["VARCHAR", n] | ["BLOB", n] | ["DECIMAL", p, s] | ["ARRAY", member].
+  Observation: {"outs": [outcome per op, in session order], "solo": [None for prefix ops, else the outcome of the op alone]};
+  the outcome of a "name" op is {"name": [type, length, precision, scale, element type]} | {"exc": ...}.
+A cast observation of an ARRAY with an element type also carries "ew": the outcome of OrsoTypes.<element type>.parse(item) for every item.
 
 Encoded values: None | ["b", bool] | ["i", hex] | ["f", 16 hex digits of the IEEE bits] | ["s", text] |
   ["y", hex bytes] | ["d", y, m, d] | ["t", y, m, d, h, mi, s, us] | ["D", sign, digits, exp] |
@@ -37,28 +46,43 @@ LEVEL_TEXT = ("Machine-checked Coq theorems over an executable model of the cast
               "scale / element type for every typed column and every x (untyped columns keep x). The model is tied to orso/types.py, DecimalFactory and FlatColumn by running the real "
               "casts on native values, str, UTF-8 bytes, padded text, the (precision, scale) grid, big integers, float corner cases and arrays of "
               "every element type and evaluating the model on the same inputs inside Coq; a literal oracle cast(render(v)) == v (type-strict) "
-              "supplies replayable failing inputs.")
+              "supplies replayable failing inputs. Round 2: OrsoTypes.from_name on member names, VARCHAR[n], BLOB[n], DECIMAL(p,s), ARRAY<member> and "
+              "FlatColumn(type=<name>) are modelled (C07_from_name_table, C07_named_column, C07_named_prefix); a session (any sequence of name "
+              "resolutions, column declarations and casts in one process) is the map of its operations (C07_session_pure, "
+              "C07_session_cast_independent, C07_session_prefix_irrelevant: a cast depends on its own arguments only), and sessions run in fresh "
+              "forked processes are compared with the model and with each operation run alone; an ARRAY cast must equal, exactly, the "
+              "implementation's own element casts of its items.")
 LEVEL_NOTE = ("Trusted: Coq kernel + vm_compute; the hand-written models of int()/str() on integers, Decimal syntax / rounding / quantize / "
               "__str__, str.upper/strip, truthiness, float(int) (validated against CPython by the correspondence, not verified); Model/C08.v "
               "(and its proofs) for parse_iso, int(str) and UTF-8. Oracles (Section variables instantiated per case with what the library "
               "returned): float(str), float(bytes), repr(float), orjson.loads, orjson.dumps, str() of containers. Not modelled: dict values, "
               "numpy / pyarrow scalars, TIME and INTERVAL parsers (null only), tz-aware datetimes; int(Decimal) with |exponent| > 5000 is not "
-              "evaluated in Coq. Known finding F-C07-5 (JSON integers outside 64 bits) is guarded by input class (see notes/C07.md).")
+              "evaluated in Coq. Known finding F-C07-5 (JSON integers outside 64 bits) is guarded by input class (see notes/C07.md). "
+              "Type names are modelled from their structure (the regular expressions of _parse_type are not; the harness prints the text, upper or "
+              "lower case). Statelessness is a property of the model by construction; that the implementation has it is tested (sessions), "
+              "not proved. Judged by the Python oracle only: outcome of an operation alone == outcome after a prefix; array == element-wise casts.")
 DESIGN_REF = "DESIGN.md section 8, C07"
 COQ_IMPORTS = ("From Coq Require Import ZArith NArith.\nFrom Orso Require Import Gen.C08_Tables Model.C08 Gen.C07_Tables Model.C07.\n"
                "Open Scope Z_scope.")
-COQ_CHECKS = {"cast": "c07_check", "str": "c07_check_str"}
-COQ_SHOW = {"cast": "c07_show", "str": "c07_show_str"}
+COQ_CHECKS = {"cast": "c07_check", "str": "c07_check_str", "session": "c07_check_session"}
+COQ_SHOW = {"cast": "c07_show", "str": "c07_show_str", "session": "c07_show_session"}
 RULE = ("per value type: typed values (booleans; integers small, at 2^63/2^64 and up to the 4300-digit limit; floats incl. NaN, infinities, "
         "-0.0, subnormals, random bit patterns; decimals over the (precision, scale) grid at 0, 1 and p digits, both signs; multi-byte text and "
         "bytes with lengths 1..8; dates and timestamps over years 1..9999; arrays of every element type with nulls) rendered as native value, "
         "str, UTF-8 bytes, padded text, JSON; the same through FlatColumn(default=...); plus wrong-class inputs and malformed text. "
-        "A case is non-trivial when the input is not None; distinct by canonical JSON of (type, kwargs, input, column?)")
+        "Sessions: a prefix that mentions a length / precision / scale / element type for 1-4 of VARCHAR, BLOB, DECIMAL, ARRAY (from_name, "
+        "FlatColumn(type=<name>) with or without default, or a cast with explicit parameters; odd and invalid names mixed in) followed by 1-3 judged "
+        "operations (bare casts of those base types, parameters absent or None, by parse or as a column default; any ordinary case; names; "
+        "declarations), plus a fixed corpus (every parameterised name resolved / declared / cast, then 27 bare casts). Arrays whose items all have "
+        "the element type already (list, tuple, set; every element type) are in the corpus. "
+        "A case is non-trivial when the input is not None; distinct by canonical JSON of (type, kwargs, input, column?) / of the operations")
 TRUSTED = [
     "C07 model (coq/Model/C07.v) of OrsoTypes.parse, the per-type parsers, parse_decimal, DecimalFactory.__call__, FlatColumn default casting; "
     "Model/C08.v for parse_iso / int(str) / UTF-8 / ISO renderers",
     "Gen/C07_Tables.v regenerated from the live modules: OrsoTypes members, ORSO_TO_PYTHON_PARSER (by function name), ORSO_TO_PYTHON_MAP, "
     "BOOLEAN_STRINGS, the literals of parse_decimal and DecimalFactory.__call__ (AST), decimal.Context defaults, str.isspace / str.upper tables",
+    "orso.types.OrsoTypes.from_name modelled on structured names (limits and forbidden element prefixes regenerated from its AST); sessions are run in "
+    "processes forked from a pristine interpreter (os.fork; orso imported, no call made)",
     "modelled, not verified: CPython int()/str() on integers, the decimal module (create_decimal, quantize, __str__), str.upper / strip, bool(); "
     "oracles: float(), repr(float), orjson.loads / dumps, str() of containers",
 ]
@@ -165,6 +189,46 @@ def _ast_constants(repo):
     return defaults["scale"], defaults["precision"], mins[0][2], mins[1][2], fr.numerator, fr.denominator
 
 
+def _from_name_constants(repo, names):
+    """OrsoTypes.from_name: the DECIMAL(p,s) limits and the element-type prefixes ARRAY<...> rejects (fail closed on another shape)."""
+    tsrc = ast.parse(open(os.path.join(repo, "orso", "types.py")).read())
+    cls = [n for n in ast.walk(tsrc) if isinstance(n, ast.ClassDef) and n.name == "OrsoTypes"]
+    if len(cls) != 1:
+        raise RuntimeError("expected exactly one class OrsoTypes in orso/types.py")
+    fns = [n for n in cls[0].body if isinstance(n, ast.FunctionDef) and n.name == "from_name"]
+    if len(fns) != 1:
+        raise RuntimeError("OrsoTypes.from_name not found")
+    fn = fns[0]
+    # <precision var>, <scale var> = parsed_types[1]
+    pairs = [n for n in ast.walk(fn) if isinstance(n, ast.Assign) and len(n.targets) == 1 and isinstance(n.targets[0], ast.Tuple)
+             and len(n.targets[0].elts) == 2 and all(isinstance(e, ast.Name) for e in n.targets[0].elts) and isinstance(n.value, ast.Subscript)]
+    if len(pairs) != 1:
+        raise RuntimeError("from_name: expected exactly one '<precision>, <scale> = parsed_types[1]'")
+    pv, sv = (e.id for e in pairs[0].targets[0].elts)
+    lows, highs, orders = {}, {}, []
+    for n in ast.walk(fn):
+        if isinstance(n, ast.Compare) and len(n.ops) == 1 and isinstance(n.left, ast.Name) and n.left.id in (pv, sv):
+            c = n.comparators[0]
+            if isinstance(c, ast.Constant) and type(c.value) is int and isinstance(n.ops[0], ast.Lt):
+                lows.setdefault(n.left.id, []).append(c.value)
+            elif isinstance(c, ast.Constant) and type(c.value) is int and isinstance(n.ops[0], ast.Gt):
+                highs.setdefault(n.left.id, []).append(c.value)
+            elif isinstance(c, ast.Name) and isinstance(n.ops[0], ast.Lt):
+                orders.append((n.left.id, c.id))
+            elif isinstance(c, ast.Constant) and c.value is None:
+                pass
+            else:
+                raise RuntimeError("from_name: unexpected comparison on %s at line %d" % (n.left.id, n.lineno))
+    if lows != {pv: [0], sv: [0]} or set(highs) != {pv, sv} or any(len(v) != 1 for v in highs.values()) or orders != [(pv, sv)]:
+        raise RuntimeError("from_name: DECIMAL(p,s) validation is not 'p < 0 or p > <c>', 's < 0 or s > <c>', 'p < s': %r %r %r" % (lows, highs, orders))
+    sw = [n for n in ast.walk(fn) if isinstance(n, ast.Call) and isinstance(n.func, ast.Attribute) and n.func.attr == "startswith"]
+    if len(sw) != 1 or len(sw[0].args) != 1 or not isinstance(sw[0].args[0], ast.Tuple) \
+            or not all(isinstance(e, ast.Constant) and type(e.value) is str for e in sw[0].args[0].elts):
+        raise RuntimeError("from_name: expected exactly one <element>.startswith((<str literals>))")
+    prefixes = tuple(e.value for e in sw[0].args[0].elts)
+    return highs[pv][0], highs[sv][0], [n for n in names if n.startswith(prefixes)]
+
+
 def gen(repo):
     import orso.types as T
 
@@ -178,6 +242,14 @@ def gen(repo):
     text += "(* OrsoTypes.__members__ *)\n"
     text += "Inductive otype := " + " | ".join("T_" + n for n in names) + ".\n"
     text += "Definition all_types : list otype := [" + "; ".join("T_" + n for n in names) + "].\n"
+    text += "Definition otype_eqb (a b : otype) : bool :=\n  match a, b with\n  | " + " | ".join("T_%s, T_%s" % (n, n) for n in names) \
+        + " => true\n  | _, _ => false\n  end.\n"
+    maxp, maxs, forbidden = _from_name_constants(repo, names)
+    text += "(* OrsoTypes.from_name: DECIMAL(p,s) needs 0 <= s <= p, p <= name_max_precision, s <= name_max_scale; ARRAY<X> rejects the members whose name starts with a forbidden prefix *)\n"
+    text += "Definition name_max_precision : Z := (%d)%%Z.\nDefinition name_max_scale : Z := (%d)%%Z.\n" % (maxp, maxs)
+    text += "Definition array_element_forbidden (t : otype) : bool :=\n  match t with\n" \
+        + ("  | " + " | ".join("T_" + n for n in forbidden) + " => true\n" if forbidden else "") \
+        + ("  | _ => false\n" if len(forbidden) < len(names) else "") + "  end.\n"
     text += "(* the module-level parser functions the model knows *)\n"
     text += "Inductive pname := " + " | ".join("P_" + n for n in PNAMES) + ".\n"
     text += "(* ORSO_TO_PYTHON_PARSER[member.value].__name__ ; None = KeyError *)\n"
@@ -455,22 +527,259 @@ def _tables(tname, kw, x):
     return tabs
 
 
-def _column(tname, kw, x):
+def _column(typ, kw, x):
+    """typ: an OrsoTypes member or the text of a type name"""
     from orso.schema import FlatColumn
     from orso.types import OrsoTypes
 
-    args = {"name": "c", "type": OrsoTypes[tname], "default": x}
+    args = {"name": "c", "type": typ, "default": x}
     for k in ("length", "precision", "scale"):
         if k in kw:
             args[k] = kw[k]
     if "element_type" in kw:
-        args["element_type"] = OrsoTypes[kw["element_type"]]
+        args["element_type"] = OrsoTypes[kw["element_type"]] if kw["element_type"] is not None else None
     return FlatColumn(**args).default
+
+
+def _tn_text(tn, lower=False):
+    """the text of a structured type name: ["plain", T] | ["VARCHAR", n] | ["BLOB", n] | ["DECIMAL", p, s] | ["ARRAY", T]"""
+    k = tn[0]
+    if k == "plain":
+        s = tn[1]
+    elif k in ("VARCHAR", "BLOB"):
+        s = "%s[%d]" % (k, tn[1])
+    elif k == "DECIMAL":
+        s = "DECIMAL(%d,%s%d)" % (tn[1], " " if tn[1] % 2 else "", tn[2])
+    elif k == "ARRAY":
+        s = "ARRAY<%s>" % tn[1]
+    else:
+        raise KeyError(k)
+    return s.lower() if lower else s
+
+
+def _tn_denotes(tn):
+    """the harness's own literal reading of a type name: (base type, its parameters), None when the name is not a valid type
+    (used for the library tables of the default's cast and by the oracle; the model has its own from_name)"""
+    k = tn[0]
+    if k == "plain":
+        return tn[1], ({"element_type": "VARCHAR"} if tn[1] == "ARRAY" else {})
+    if k in ("VARCHAR", "BLOB"):
+        return k, {"length": tn[1]}
+    if k == "DECIMAL":
+        return ("DECIMAL", {"precision": tn[1], "scale": tn[2]}) if 0 <= tn[2] <= tn[1] <= 38 else None
+    if k == "ARRAY":
+        return ("ARRAY", {"element_type": tn[1]}) if tn[1] not in ("ARRAY", "DECIMAL") else None
+    raise KeyError(k)
+
+
+def _merged(kw, kn):
+    out = dict(kn)
+    out.update({k: v for k, v in kw.items() if v is not None})
+    return out
+
+
+def _elementwise(tname, kw, x):
+    """ARRAY with an element type: what the implementation's own element cast returns on every item, one by one"""
+    import orjson
+    from orso.types import OrsoTypes
+
+    et = kw.get("element_type")
+    if x is None or et is None or _parser_name(tname) != "parse_array" or et not in OrsoTypes.__members__:
+        return None
+    items = x
+    if not isinstance(x, (list, tuple, set)):
+        if type(x) not in (str, bytes):
+            return None
+        try:
+            items = orjson.loads(x)
+        except Exception:
+            return None
+    if type(items) not in (list, tuple, set, str, bytes):
+        return None
+    out = []
+    for e in items:
+        try:
+            out.append({"ok": enc(OrsoTypes[et].parse(e))})
+        except Unmodelled as u:
+            out.append({"ok_class": str(u)})
+        except Exception as ex:
+            out.append({"exc": exn_name(ex)})
+    return out
+
+
+def _observe_cast(case):
+    """one cast (OrsoTypes.<t>.parse / FlatColumn(type=<t> or a type name, default=x).default) in the current process"""
+    from orso.types import OrsoTypes
+
+    x = dec(case["x"])
+    kw = case.get("kw", {})
+    named = case.get("op") == "decl"
+    if named:
+        den = _tn_denotes(case["tn"])
+        tname, tkw = (den[0], _merged(kw, den[1])) if den else (None, {})
+    else:
+        tname, tkw = case["t"], kw
+    out = {}
+    try:
+        out["x"] = enc(x)
+        out["tabs"] = _tables(tname, tkw, x) if tname is not None else _tables("NULL", {}, None)
+    except Unmodelled as u:
+        out["unmodelled"] = str(u)
+        out["x"] = case["x"]
+    with warnings.catch_warnings():
+        warnings.simplefilter("ignore")
+        if tname is not None and "unmodelled" not in out:
+            ew = _elementwise(tname, tkw, x)
+            if ew is not None:
+                out["ew"] = ew
+        try:
+            if named:
+                r = _column(_tn_text(case["tn"], case.get("lower", False)), kw, x)
+            elif case.get("col"):
+                r = _column(OrsoTypes[tname], kw, x)
+            else:
+                args = {k: v for k, v in kw.items() if k != "element_type"}
+                if "element_type" in kw:
+                    args["element_type"] = OrsoTypes[kw["element_type"]] if kw["element_type"] is not None else None
+                r = OrsoTypes[tname].parse(x, **args)
+            try:
+                out["ok"] = enc(r)
+            except Unmodelled as u:
+                # the class reported is that of the RESULT; a list holding a value the encoding does not cover is still a list
+                out["ok_class"] = "list-with:" + str(u) if type(r) is list else str(u)
+                out["unmodelled"] = "result " + str(u)
+        except Exception as e:
+            out["exc"] = exn_name(e)
+    return out
+
+
+def _observe_name(op):
+    """OrsoTypes.from_name(<text>) -> [type, length, precision, scale, element type]"""
+    from orso.types import OrsoTypes
+
+    with warnings.catch_warnings():
+        warnings.simplefilter("ignore")
+        try:
+            r = OrsoTypes.from_name(_tn_text(op["tn"], op.get("lower", False)))
+        except Exception as e:
+            return {"exc": exn_name(e)}
+    if type(r) is not tuple or len(r) != 5 or not isinstance(r[0], OrsoTypes) or not (r[4] is None or isinstance(r[4], OrsoTypes)) \
+            or any(type(v) not in (int, type(None)) for v in r[1:4]):
+        return {"unmodelled": "from_name returned " + repr(r)[:80], "ok_class": "other"}
+    return {"name": [r[0].name, r[1], r[2], r[3], None if r[4] is None else r[4].name]}
+
+
+def _run_ops(ops):
+    return [_observe_name(o) if o["op"] == "name" else _observe_cast(o) for o in ops]
+
+
+# ---- sessions run in a process forked from a pristine interpreter (orso imported, no call made yet), so that
+# what an earlier case did to the process can never reach a session, and a session replays identically alone
+_SRV = None
+
+
+def _serve(rfd, wfd):
+    rf = os.fdopen(rfd, "rb")
+    wf = os.fdopen(wfd, "wb")
+    while True:
+        line = rf.readline()
+        if not line:
+            break
+        r2, w2 = os.pipe()
+        pid = os.fork()
+        if pid == 0:
+            os.close(r2)
+            try:
+                data = json.dumps(_run_ops(json.loads(line)))
+            except BaseException as e:  # reported to the parent as a harness error
+                data = json.dumps({"harness_error": repr(e)})
+            with os.fdopen(w2, "wb") as f:
+                f.write(data.encode())
+            os._exit(0)
+        os.close(w2)
+        chunks = []
+        with os.fdopen(r2, "rb") as f:
+            while True:
+                c = f.read(1 << 16)
+                if not c:
+                    break
+                chunks.append(c)
+        os.waitpid(pid, 0)
+        wf.write(b"".join(chunks) + b"\n")
+        wf.flush()
+    os._exit(0)
+
+
+def _server():
+    global _SRV
+    if _SRV is None or _SRV[0] != os.getpid():
+        import atexit
+        import orso.schema  # noqa: F401  (imported before the fork: the server is pristine but complete)
+        import orso.types  # noqa: F401
+        import orjson  # noqa: F401
+
+        sys.stdout.flush()
+        sys.stderr.flush()
+        r1, w1 = os.pipe()
+        r2, w2 = os.pipe()
+        pid = os.fork()
+        if pid == 0:
+            os.close(w1)
+            os.close(r2)
+            try:
+                _serve(r1, w2)
+            finally:
+                os._exit(0)
+        os.close(r1)
+        os.close(w2)
+        _SRV = (os.getpid(), os.fdopen(w1, "wb"), os.fdopen(r2, "rb"), pid)
+
+        def _stop(srv=_SRV):
+            if srv[0] == os.getpid():
+                try:
+                    srv[1].close()
+                    os.waitpid(srv[3], 0)
+                except Exception:
+                    pass
+        atexit.register(_stop)
+    return _SRV
+
+
+def _fresh(ops):
+    """the outcomes of the operations run in order in a fresh process"""
+    srv = _server()
+    srv[1].write(json.dumps(ops).encode() + b"\n")
+    srv[1].flush()
+    line = srv[2].readline()
+    if not line:
+        raise RuntimeError("the session server died")
+    out = json.loads(line)
+    if isinstance(out, dict):
+        raise RuntimeError("session harness: " + out.get("harness_error", "?"))
+    return out
+
+
+def _merge_tabs(obss):
+    tabs = {"ftext": [], "fbytes": [], "repr": [], "loads": [], "dumps": [], "strc": []}
+    for o in obss:
+        for name, rows in (o.get("tabs") or {}).items():
+            for k, v in rows:
+                if not any(k == k2 for k2, _ in tabs[name]):
+                    tabs[name].append([k, v])
+    return tabs
 
 
 def observe(case):
     from orso.types import OrsoTypes
 
+    _server()  # forked before the first call into orso ever made by this process
+    if case.get("kind") == "session":
+        ops = case["ops"]
+        outs = _fresh(ops)
+        solo = [None] * len(ops)
+        for i in range(case.get("n_pre", 0), len(ops)):
+            solo[i] = _fresh([ops[i]])[0]
+        return {"outs": outs, "solo": solo}
     if case.get("kind") == "str":
         v = dec(case["v"])
         try:
@@ -482,34 +791,7 @@ def observe(case):
                        "strc": [[enc(v), str(v)]] if type(v) in (list, tuple, set, bytes) else []}
         out["x"] = enc(v)
         return out
-    x = dec(case["x"])
-    tname = case["t"]
-    kw = case.get("kw", {})
-    out = {}
-    try:
-        out["x"] = enc(x)
-        out["tabs"] = _tables(tname, kw, x)
-    except Unmodelled as u:
-        out["unmodelled"] = str(u)
-        out["x"] = case["x"]
-    with warnings.catch_warnings():
-        warnings.simplefilter("ignore")
-        try:
-            if case.get("col"):
-                r = _column(tname, kw, x)
-            else:
-                args = {k: v for k, v in kw.items() if k != "element_type"}
-                if "element_type" in kw:
-                    args["element_type"] = OrsoTypes[kw["element_type"]]
-                r = OrsoTypes[tname].parse(x, **args)
-            try:
-                out["ok"] = enc(r)
-            except Unmodelled as u:
-                out["ok_class"] = str(u)
-                out["unmodelled"] = "result " + str(u)
-        except Exception as e:
-            out["exc"] = exn_name(e)
-    return out
+    return _observe_cast(case)
 
 
 # --------------------------------------------------------------------------- the property, literally
@@ -527,9 +809,8 @@ def _same(a, b, nan_any=False):
         return a == b
     if type(a) is list:
         return len(a) == len(b) and all(_same(p, q, nan_any) for p, q in zip(a, b))
-    if type(a) is datetime.datetime:
-        # "timestamps to whole seconds": equality modulo the sub-second part
-        return a.replace(microsecond=0) == b.replace(microsecond=0)
+    # "timestamps to whole seconds": _expected hands over the value reduced to whole seconds and the
+    # result must BE that value (microsecond 0) - a result that kept the sub-second part is not equal
     return a == b
 
 
@@ -590,7 +871,7 @@ def _expected(case):
     v = dec(case["v"])
     r = case["r"]
     t = case["t"]
-    kw = case.get("kw", {})
+    kw = {k: x for k, x in case.get("kw", {}).items() if x is not None}   # a parameter given as None is a parameter not given
     if case.get("col") and t == "DECIMAL":
         # a DECIMAL column without a declared precision / scale has decimal.getcontext().prec and int(0.75 * precision)
         kw = dict(kw)
@@ -657,9 +938,86 @@ def _short(o):
     return s if len(s) < 160 else s[:157] + "..."
 
 
+def _op_text(op):
+    """an operation of a session as the Python call it is"""
+    def kws(kw):
+        return "".join(", %s=%s" % (k, ("OrsoTypes." + v) if k == "element_type" and v is not None else repr(v)) for k, v in sorted(kw.items()))
+    if op["op"] == "name":
+        return "OrsoTypes.from_name(%r)" % _tn_text(op["tn"], op.get("lower", False))
+    x = _short(dec(op["x"]))
+    if op["op"] == "decl":
+        return "FlatColumn(name='c', type=%r%s, default=%s).default" % (_tn_text(op["tn"], op.get("lower", False)), kws(op.get("kw", {})), x)
+    if op.get("col"):
+        return "FlatColumn(name='c', type=OrsoTypes.%s%s, default=%s).default" % (op["t"], kws(op.get("kw", {})), x)
+    return "OrsoTypes.%s.parse(%s%s)" % (op["t"], x, kws(op.get("kw", {})))
+
+
+def _outcome(o):
+    return {k: o[k] for k in ("ok", "exc", "ok_class", "name") if k in o}
+
+
+def _op_as_case(op):
+    """the cast case an operation of a session amounts to (None for from_name and for an invalid type name)"""
+    if op["op"] == "name":
+        return None
+    if op["op"] == "cast":
+        return op
+    den = _tn_denotes(op["tn"])
+    if den is None:
+        return None
+    c = {"t": den[0], "kw": _merged(op.get("kw", {}), den[1]), "col": True, "x": op["x"]}
+    if "v" in op:
+        c["v"], c["r"] = op["v"], op["r"]
+    return c
+
+
+def _oracle_session(case, obs):
+    ops, outs, solo = case["ops"], obs["outs"], obs["solo"]
+    for i, op in enumerate(ops):
+        if solo[i] is not None and _outcome(outs[i]) != _outcome(solo[i]):
+            return ("operation %d of the session, %s, gave %s after the earlier operations [%s] but %s as the only operation of a fresh process; "
+                    "a cast depends only on its type, its value and the parameters given to that cast"
+                    % (i, _op_text(op), _short(_outcome(outs[i])), "; ".join(_op_text(o) for o in ops[:i]), _short(_outcome(solo[i]))))
+        sub = _op_as_case(op)
+        if sub is not None and known(sub, outs[i]) is None:
+            why = oracle(sub, outs[i])
+            if why is not None:
+                return "operation %d of the session, %s (after [%s]): %s" % (i, _op_text(op), "; ".join(_op_text(o) for o in ops[:i]), why)
+        if op["op"] == "decl" and sub is None and "exc" not in outs[i]:
+            return "operation %d of the session, %s: the type name is not a valid column type, the constructor must raise" % (i, _op_text(op))
+    return None
+
+
+def _oracle_elementwise(case, obs):
+    """ARRAY with an element type is the element-wise cast: the result is exactly what the element type's own cast returns on
+    each item (nulls kept, nothing skipped, nothing left as it was); it raises exactly when the first failing item's cast raises"""
+    ew = obs.get("ew")
+    if ew is None or any("ok_class" in e for e in ew) or "ok_class" in obs:
+        return None
+    et = case.get("kw", {}).get("element_type")
+    what = "ARRAY<%s> cast of %s" % (et, _short(dec(case["x"])))
+    first_exc = next((e["exc"] for e in ew if "exc" in e), None)
+    if first_exc is not None:
+        want = "XValue" if case.get("col") else first_exc
+        if obs.get("exc") != want:
+            k = next(i for i, e in enumerate(ew) if "exc" in e)
+            return what + ": the %s cast of item %d raises %s, so the array cast must raise %s; got %s" % (et, k, first_exc, want, _short(_outcome(obs)))
+        return None
+    want = ["l", [e["ok"] for e in ew]]
+    if obs.get("ok") != want:
+        got = dec(obs["ok"]) if "ok" in obs else obs.get("exc")
+        return what + " returned %s; the element-wise %s casts of its items give %s" % (_short(got), et, _short(dec(want)))
+    return None
+
+
 def oracle(case, obs):
     if case.get("kind") == "str":
         return None
+    if case.get("kind") == "session":
+        return _oracle_session(case, obs)
+    why = _oracle_elementwise(case, obs)
+    if why is not None:
+        return why
     t = case["t"]
     xenc = case["x"]
     # null
@@ -675,6 +1033,13 @@ def oracle(case, obs):
     cls = VALUE_CLASS.get(t)
     got = None
     returned = "exc" not in obs
+    if returned and cls is list and obs.get("ok_class", "").startswith("list-with:"):
+        # a list, as required; its items are outside the value encoding (dict, time, timedelta): judged only when the
+        # element type is one of the property's value types, whose class they cannot have
+        et = case.get("kw", {}).get("element_type")
+        if et in VALUE_CLASS and et != "ARRAY":
+            return "ARRAY<%s> cast returned an element of class %s; elements must be %s or null" % (et, obs["ok_class"][10:], VALUE_CLASS[et].__name__)
+        return None
     if returned and cls is not None:
         if "ok_class" in obs:
             return "%s cast returned a value of class %s; it must return %s or raise" % (t, obs["ok_class"], cls.__name__)
@@ -748,6 +1113,9 @@ def known(case, obs):
     """guard of the known finding F-C07-5 (an input class): JSON array text holding an integer outside 64 bits"""
     if case.get("kind") == "str":
         return None
+    if case.get("kind") == "session":
+        subs = [_op_as_case(o) for o in case["ops"]]
+        return "F-C07-5" if any(c is not None and known(c, None) for c in subs) else None
     if case["t"] == "ARRAY" and _json_big_int(dec(case["x"])):
         return "F-C07-5"
     return None
@@ -851,18 +1219,73 @@ def c_kw(kw):
     return "(kw %s %s %s %s)" % (o("length"), o("precision"), o("scale"), et)
 
 
+def c_tname(tn):
+    k = tn[0]
+    if k == "plain":
+        return "(TNPlain T_%s)" % tn[1]
+    if k == "VARCHAR":
+        return "(TNVarchar %s)" % c_Z(tn[1])
+    if k == "BLOB":
+        return "(TNBlob %s)" % c_Z(tn[1])
+    if k == "DECIMAL":
+        return "(TNDecimal %s %s)" % (c_Z(tn[1]), c_Z(tn[2]))
+    if k == "ARRAY":
+        return "(TNArray T_%s)" % tn[1]
+    raise KeyError(k)
+
+
+def _cast_modelled(t, kw, o):
+    """the conditions under which a cast is evaluated in Coq (see to_coq)"""
+    if "unmodelled" in o:
+        return False
+    if any(type(kw.get(k)) not in (int, type(None)) for k in ("length", "precision", "scale")):
+        return False
+    if o["x"] is not None and t is not None and ({_parser_name(t), _parser_name(kw.get("element_type") or "NULL")} & {"parse_time", "parse_interval"}):
+        return False  # TIME / INTERVAL: only the null short-circuit is modelled
+    if t == "INTEGER" and o["x"] is not None and o["x"][0] == "D" and type(o["x"][3]) is int and abs(o["x"][3]) > 5000:
+        return False  # int(Decimal('1E+999999')): not evaluated in Coq
+    return True
+
+
+def _session_to_coq(case, obs):
+    ops, outs = case["ops"], obs["outs"]
+    terms, results = [], []
+    for op, o in zip(ops, outs):
+        if op["op"] == "name":
+            if "unmodelled" in o:
+                return None
+            terms.append("OResolve %s" % c_tname(op["tn"]))
+            if "exc" in o:
+                results.append("OutName (RErr %s)" % c_xn(o["exc"]))
+            else:
+                n = o["name"]
+                results.append("OutName (ROk (T_%s, %s))" % (n[0], c_kw({"length": n[1], "precision": n[2], "scale": n[3], "element_type": n[4]})))
+            continue
+        kw = op.get("kw", {})
+        if op["op"] == "decl":
+            den = _tn_denotes(op["tn"])
+            t, mk = (den[0], _merged(kw, den[1])) if den else (None, kw)
+            if not _cast_modelled(t, mk, o):
+                return None
+            terms.append("ODeclare %s %s %s" % (c_tname(op["tn"]), c_kw(kw), c_pyval(o["x"])))
+        else:
+            if not _cast_modelled(op["t"], kw, o):
+                return None
+            terms.append("OCast %s T_%s %s %s" % (c_bool(op.get("col", False)), op["t"], c_kw(kw), c_pyval(o["x"])))
+        results.append("OutVal %s" % c_res(o, c_pyval))
+    return ("session", "(%s, %s, %s)" % (L.lst(terms), c_otab(_merge_tabs(outs)), L.lst(results)))
+
+
 def to_coq(case, obs):
+    if case.get("kind") == "session":
+        return _session_to_coq(case, obs)
     if "unmodelled" in obs:
         return None
     if case.get("kind") == "str":
         return ("str", "(%s, %s, %s)" % (c_pyval(obs["x"]), c_otab(obs["tabs"]), c_res(obs, lambda s: c_text(ord(c) for c in s))))
     kw = case.get("kw", {})
-    if any(type(kw.get(k)) not in (int, type(None)) for k in ("length", "precision", "scale")):
+    if not _cast_modelled(case["t"], kw, obs):
         return None
-    if obs["x"] is not None and ({_parser_name(case["t"]), _parser_name(kw.get("element_type") or "NULL")} & {"parse_time", "parse_interval"}):
-        return None  # TIME / INTERVAL: only the null short-circuit is modelled
-    if case["t"] == "INTEGER" and obs["x"] is not None and obs["x"][0] == "D" and type(obs["x"][3]) is int and abs(obs["x"][3]) > 5000:
-        return None  # int(Decimal('1E+999999')): not evaluated in Coq
     term = "(%s, T_%s, %s, %s, %s, %s)" % (c_bool(case.get("col", False)), case["t"], c_kw(kw), c_pyval(obs["x"]),
                                           c_otab(obs["tabs"]), c_res(obs, c_pyval))
     return ("cast", term)
@@ -871,6 +1294,8 @@ def to_coq(case, obs):
 def nontrivial_key(case, obs):
     if case.get("kind") == "str":
         return "str:" + json.dumps(case["v"], sort_keys=True)
+    if case.get("kind") == "session":
+        return "session:" + json.dumps(case["ops"], sort_keys=True)
     if case["x"] is None:
         return None
     return json.dumps([case["t"], case.get("kw", {}), case["x"], bool(case.get("col"))], sort_keys=True)
@@ -879,6 +1304,14 @@ def nontrivial_key(case, obs):
 def classify(case, obs):
     if case.get("kind") == "str":
         yield "str-render"
+        return
+    if case.get("kind") == "session":
+        yield "session"
+        yield "session-length:%d" % len(case["ops"])
+        for o in case["ops"][:case.get("n_pre", 0)]:
+            yield "session-prefix-op:" + (o["op"] + ":" + o["tn"][0] if "tn" in o else "cast:" + o["t"])
+        for o in case["ops"][case.get("n_pre", 0):]:
+            yield "session-judged-op:" + (o["op"] + ":" + o["tn"][0] if "tn" in o else ("column:" if o.get("col") else "parse:") + o["t"])
         return
     yield "type:" + case["t"]
     yield "via:" + ("FlatColumn" if case.get("col") else "parse")
@@ -1167,8 +1600,190 @@ def _str_cases(rng, n):
         yield {"kind": "str", "v": enc(v)}
 
 
+# --------------------------------------------------------------------------- sessions
+_PARAM_BASES = ["VARCHAR", "BLOB", "DECIMAL", "ARRAY"]
+_NONE_KW = {"length": None, "precision": None, "scale": None, "element_type": None}
+
+
+def _rand_tn(rng, base):
+    if base in ("VARCHAR", "BLOB"):
+        return [base, rng.choice([1, 2, 3, 4, 7, 0, 255])]
+    if base == "DECIMAL":
+        p = rng.randint(1, 38)
+        return ["DECIMAL", p, rng.randint(0, p)]
+    return ["ARRAY", rng.choice([t for t in _SCALARS if t != "DECIMAL"])]
+
+
+def _as_op(c, **extra):
+    o = dict(c)
+    o["op"] = "cast"
+    o.update(extra)
+    return o
+
+
+def _decl_op(rng, tn, lower=False):
+    """FlatColumn(type=<name>, default=<a value of that type, in some rendering>)"""
+    base = tn[0]
+    if base == "ARRAY":
+        et = tn[1]
+        v = _elements(rng, et, rng.randint(0, 4))
+        cs = list(rendered("ARRAY", v, [rng.choice(["native", "tuple", "json"])], {"element_type": et}, True))
+    elif base == "DECIMAL":
+        v = _dec_with(rng, rng.randint(1, max(1, tn[1])), rng.randint(0, tn[2]), rng.randint(0, 1))
+        cs = list(rendered("DECIMAL", v, [rng.choice(["native", "str", "bytes"])], {"precision": tn[1], "scale": tn[2]}, True))
+    else:
+        v = _typed_value(rng, base)
+        cs = list(rendered(base, v, [rng.choice(_RENDERINGS[base])], {"length": tn[1]}, True))
+    if not cs:
+        return {"op": "decl", "tn": tn, "kw": {}, "x": None, "lower": lower}
+    return {"op": "decl", "tn": tn, "kw": {}, "x": cs[0]["x"], "v": cs[0]["v"], "r": cs[0]["r"], "lower": lower}
+
+
+def _prefix_op(rng, base):
+    """an operation that mentions a length / precision / scale / element type for the base type"""
+    tn = _rand_tn(rng, base)
+    r = rng.random()
+    lower = rng.random() < 0.25
+    if r < 0.4:
+        return {"op": "name", "tn": tn, "lower": lower}
+    if r < 0.55:
+        return {"op": "decl", "tn": tn, "kw": {}, "x": None, "lower": lower}
+    if r < 0.8:
+        return _decl_op(rng, tn, lower)
+    d = _decl_op(rng, tn)       # the same value cast with the parameters given to the cast itself
+    return {"op": "cast", "t": base, "kw": _tn_denotes(tn)[1], "col": rng.random() < 0.5, "x": d["x"]}
+
+
+def _bare_op(rng, base):
+    """a cast of the base type with no parameters (or with all of them None), by parse or as a column default"""
+    col = rng.random() < 0.3
+    if base == "ARRAY":
+        et = rng.choice(_PARAM_BASES[:3] + [None, "TIMESTAMP", "INTEGER"])
+        v = _elements(rng, et, rng.randint(1, 4))
+        cs = list(rendered("ARRAY", v, [rng.choice(["native", "tuple", "json"])], {} if et is None else {"element_type": et}, col))
+    else:
+        cs = list(rendered(base, _typed_value(rng, base), [rng.choice(_RENDERINGS[base])], {}, col))
+    if not cs:
+        return None
+    c = cs[0]
+    if rng.random() < 0.3:
+        c["kw"] = dict(_NONE_KW, **c["kw"])
+    return _as_op(c)
+
+
+def _any_op(rng):
+    r = rng.random()
+    col = rng.random() < 0.2
+    if r < 0.4:
+        cs = list(_scalar_case(rng, col))
+    elif r < 0.6:
+        cs = list(_array_cases(rng, col))
+    elif r < 0.8:
+        cs = list(_wrong_class_case(rng, col))
+    else:
+        p = rng.randint(1, 38)
+        cs = list(_grid_cases(rng, p, rng.randint(0, p), col))[:1]
+    return _as_op(cs[0]) if cs else None
+
+
+_ODD_NAMES = [["DECIMAL", 39, 2], ["DECIMAL", 5, 6], ["DECIMAL", 38, 38], ["DECIMAL", 0, 0], ["ARRAY", "DECIMAL"], ["ARRAY", "ARRAY"], ["ARRAY", "NULL"],
+              ["ARRAY", "_MISSING_TYPE"], ["ARRAY", "TIME"], ["VARCHAR", 0], ["BLOB", 10 ** 6]] + [["plain", t] for t in ALL_TYPES]
+
+
+def _session(rng):
+    bases = rng.sample(_PARAM_BASES, rng.randint(1, 4))
+    pre = [_prefix_op(rng, b) for b in bases]
+    if rng.random() < 0.25:
+        pre.insert(rng.randint(0, len(pre)), {"op": "name", "tn": rng.choice(_ODD_NAMES), "lower": rng.random() < 0.3})
+    body = []
+    for _ in range(rng.randint(1, 2)):
+        o = _bare_op(rng, rng.choice(bases)) if rng.random() < 0.6 else _any_op(rng)
+        if o is not None:
+            body.append(o)
+    if rng.random() < 0.15:     # a name or a declaration is judged like a cast: alone and after the prefix
+        tn = rng.choice(_ODD_NAMES + [_rand_tn(rng, rng.choice(_PARAM_BASES))])
+        body.append({"op": "name", "tn": tn, "lower": False} if rng.random() < 0.5 or tn[0] == "plain" else _decl_op(rng, tn) if _tn_denotes(tn) else
+                    {"op": "decl", "tn": tn, "kw": {}, "x": enc("1")})
+    if not body:
+        return
+    yield {"kind": "session", "ops": pre + body, "n_pre": len(pre)}
+
+
+def _session_corpus():
+    """fixed sessions: every parameterised name resolved / declared, then each bare cast; names alone"""
+    import random
+
+    D = decimal.Decimal
+    text = "hello world, this is the canonical text"
+    number = D("12345.678901234")
+    stamps = [datetime.datetime(2023, 4, 18, 12, 34, 56, 789012), datetime.datetime(1969, 12, 31, 23, 59, 59, 999999)]
+    names = [["VARCHAR", 3], ["BLOB", 4], ["DECIMAL", 5, 2], ["ARRAY", "INTEGER"]]
+    prefixes = [
+        [{"op": "name", "tn": tn} for tn in names],
+        [{"op": "decl", "tn": ["VARCHAR", 3], "kw": {}, "x": None}, {"op": "decl", "tn": ["BLOB", 4], "kw": {}, "x": enc(b"abcdefgh"), "v": enc(b"abcdefgh"), "r": "native"},
+         {"op": "decl", "tn": ["DECIMAL", 5, 2], "kw": {}, "x": None}, {"op": "decl", "tn": ["ARRAY", "TIMESTAMP"], "kw": {}, "x": enc(list(stamps)), "v": enc(list(stamps)), "r": "native"}],
+        [{"op": "cast", "t": "VARCHAR", "kw": {"length": 2}, "col": False, "x": enc(text)}, {"op": "cast", "t": "BLOB", "kw": {"length": 2}, "col": True, "x": enc(b"abcdef")},
+         {"op": "cast", "t": "DECIMAL", "kw": {"precision": 4, "scale": 1}, "col": False, "x": enc("1.25")},
+         {"op": "cast", "t": "ARRAY", "kw": {"element_type": "BOOLEAN"}, "col": False, "x": enc(["yes", "no"])}],
+    ]
+    bodies = []
+    bodies += list(rendered("VARCHAR", text, ["native", "bytes"]))
+    bodies += [dict(c, kw=dict(_NONE_KW)) for c in rendered("VARCHAR", text, ["native"])]
+    bodies += list(rendered("VARCHAR", text, ["native"], {}, True))
+    bodies += list(rendered("BLOB", text.encode(), ["native", "str"]))
+    bodies += list(rendered("BLOB", text.encode(), ["native"], {}, True))
+    bodies += list(rendered("DECIMAL", number, ["native", "str", "pad"]))
+    bodies += list(rendered("DECIMAL", number, ["str"], {"precision": 20, "scale": 9}, True))
+    bodies += [dict(c, kw=dict(_NONE_KW)) for c in rendered("DECIMAL", number, ["str"])]
+    bodies += list(rendered("ARRAY", ["a", 1, None, 2.5], ["native", "tuple"]))
+    bodies += [dict(c, kw=dict(_NONE_KW)) for c in rendered("ARRAY", ["a", 1, None, 2.5], ["native"])]
+    bodies += list(rendered("ARRAY", [text, None], ["native", "json"], {"element_type": "VARCHAR"}))
+    bodies += list(rendered("ARRAY", [text.encode(), None], ["native"], {"element_type": "BLOB"}, True))
+    bodies += list(rendered("ARRAY", [number, None], ["native"], {"element_type": "DECIMAL"}))
+    bodies += list(rendered("ARRAY", stamps, ["native", "tuple"], {"element_type": "TIMESTAMP"}))
+    bodies += list(rendered("TIMESTAMP", stamps[0], ["native", "str"]))
+    bodies += list(rendered("INTEGER", 2 ** 64, ["str"]))
+    bodies += list(rendered("DOUBLE", 0.1, ["str"]))
+    bodies += list(rendered("BOOLEAN", True, ["str"]))
+    bodies += list(rendered("DATE", datetime.date(2024, 2, 29), ["str"]))
+    for pre in prefixes:
+        for c in bodies:
+            yield {"kind": "session", "ops": pre + [_as_op(c)], "n_pre": len(pre)}
+    # every name on its own and after the others; declarations through every parameterised name
+    rng = random.Random(11)
+    for tn in names + _ODD_NAMES:
+        yield {"kind": "session", "ops": prefixes[0] + [{"op": "name", "tn": tn, "lower": tn[-1] in ("INTEGER", 2)}], "n_pre": 4}
+    for tn in names + [["ARRAY", "TIMESTAMP"], ["ARRAY", "VARCHAR"], ["DECIMAL", 38, 28], ["VARCHAR", 0], ["plain", "ARRAY"], ["plain", "VARCHAR"], ["plain", "DECIMAL"],
+                       ["plain", "_MISSING_TYPE"], ["DECIMAL", 39, 2], ["ARRAY", "DECIMAL"]]:
+        for _ in range(2):
+            if tn[0] == "plain" or _tn_denotes(tn) is None:
+                d = {"op": "decl", "tn": tn, "kw": {}, "x": enc(rng.choice(["12", "abc", ["1", "2"]]))}
+            else:
+                d = _decl_op(rng, tn)
+            yield {"kind": "session", "ops": prefixes[2] + [d, dict(d, kw={"length": 2})], "n_pre": 4}
+
+
+def _typed_arrays():
+    """arrays whose items ALL have the element type already (no null, no text): list, tuple, set; parse, column, column by name"""
+    D = decimal.Decimal
+    vals = {"BOOLEAN": [True, False], "INTEGER": [1, -2 ** 63, 2 ** 64], "DOUBLE": [0.1, -0.0, 1e22],
+            "DECIMAL": [D("1.5"), D("-12.25"), D("7")], "VARCHAR": ["a", "héllo"], "BLOB": [b"a", b"\xc3\xa9"],
+            "DATE": [datetime.date(2024, 2, 29), datetime.date(1, 1, 1)],
+            "TIMESTAMP": [datetime.datetime(2023, 4, 18, 12, 34, 56, 789012), datetime.datetime(1969, 12, 31, 23, 59, 59, 999999), datetime.datetime(2024, 2, 29, 0, 0, 0, 1)]}
+    for et, v in vals.items():
+        for n in (1, len(v)):
+            for r in ("native", "tuple", "set"):
+                for col in (False, True):
+                    yield from rendered("ARRAY", v[:n], [r], {"element_type": et}, col)
+        if et != "DECIMAL":
+            c = list(rendered("ARRAY", v, ["native"], {"element_type": et}, True))[0]
+            yield {"kind": "session", "ops": [{"op": "decl", "tn": ["ARRAY", et], "kw": {}, "x": c["x"], "v": c["v"], "r": c["r"]}], "n_pre": 0}
+
+
 def corpus():
     D = decimal.Decimal
+    yield from _session_corpus()
+    yield from _typed_arrays()
     # F-C07-1 (fixed 1f60a67): DECIMAL.parse(Decimal) raised AttributeError
     yield C("DECIMAL", enc(D("1.5")), {}, False, enc(D("1.5")), "native", True)
     yield C("DECIMAL", enc(D("1.5")), {"precision": 5, "scale": 3}, False, enc(D("1.5")), "native", True)
@@ -1286,6 +1901,8 @@ def generate(rng, tier):
     n = 2200 if tier == "quick" else 28000
     yield from _big_ints(tier)
     yield from _str_cases(rng, 60 if tier == "quick" else 1200)
+    for i in range(150 if tier == "quick" else 2500):
+        yield from _session(rng)
     for i in range(n):
         r = rng.random()
         col = rng.random() < 0.15
@@ -1306,7 +1923,9 @@ def search(rng):
     while True:
         r = rng.random()
         col = rng.random() < 0.2
-        if r < 0.5:
+        if rng.random() < 0.15:
+            yield from _session(rng)
+        elif r < 0.5:
             yield from _scalar_case(rng, col)
         elif r < 0.7:
             yield from _array_cases(rng, col)
@@ -1320,6 +1939,16 @@ def search(rng):
 
 
 def shrink(case):
+    if case.get("kind") == "session":
+        ops, k = case["ops"], case.get("n_pre", 0)
+        if len(ops) > k + 1:        # one judged operation at a time
+            for i in range(k, len(ops)):
+                yield {"kind": "session", "ops": ops[:k] + [ops[i]], "n_pre": k}
+        for i in range(k):          # a shorter prefix
+            yield {"kind": "session", "ops": ops[:i] + ops[i + 1:], "n_pre": k - 1}
+        if k == 0 and len(ops) == 1 and ops[0]["op"] == "cast":
+            yield ops[0]            # not a matter of sequence at all: the plain cast case
+        return
     if case.get("kind") == "str" or "v" not in case or case["v"] is None:
         return
     v = case["v"]
